@@ -241,7 +241,7 @@ struct C18 : Profile {
       static const char* BAD[] = {"\xC3", "\xE2\x82", "\xF0\x9F\x98", "\x80", "ab\xFFz", "\xC0\xAF", "\xED\xA0\x80", "\xF4\x90\x80\x80"};
       bool valid = r.chance(0.7); plan["valid"] = valid; plan["text"] = enc(valid ? VALID[r.below(8)] : BAD[r.below(8)]);
       json ops = json::array(); int n = (int)r.range(3, 12);
-      for (int i = 0; i < n; ++i) { static const long P[] = {-1, 0, 1, 2, 3, 5, 10, 4294967297L}; ops.push_back(json::array({(int)r.below(7), P[r.below(8)], P[r.below(7)], (long)r.pick(std::vector<long>{65, 0xC3A9, 0xE282AC, 0xF09F9880L, 233, 0, 0xC3})})); }
+      for (int i = 0; i < n; ++i) { static const long P[] = {-1, 0, 1, 2, 3, 5, 10, 4294967297L}; ops.push_back(json::array({(int)r.below(10), P[r.below(8)], P[r.below(7)], (long)r.pick(std::vector<long>{65, 0xC3A9, 0xE282AC, 0xF09F9880L, 233, 0, 0xC3})})); }
       plan["ops"] = ops;
     } else {
       json rows = json::array(); int nr = (int)r.range(1, 4);
@@ -367,6 +367,9 @@ struct C18 : Profile {
       case 4: { bool okcp = cp == 65 || cp == 0xC3A9 || cp == 0xE282AC || cp == 0xF09F9880L; s += "print \"" + tag + "\" u.insert(" + lit(p) + ", " + lit(cp) + ");\n";
                 if (!valid) want.push_back("?"); else if (p >= 0 && (size_t)p <= m.size() && okcp) { m.insert(m.begin() + p, cp); want.push_back(tag + "TRUE"); } else want.push_back(tag + "FALSE"); break; }
       case 5: s += "print \"" + tag + "\" u.remove(" + lit(p) + ", " + lit(n) + ");\n"; if (p >= 0 && n >= 0 && (size_t)p < m.size() && valid) { m.erase(m.begin() + p, m.begin() + std::min(m.size(), (size_t)p + (size_t)std::min<long>(n, 1000))); want.push_back(tag + "TRUE"); } else { want.push_back("?"); valid = false; } break;
+      case 7: case 8: { // insert of a utf8 object: another one, or the receiver itself
+        bool self = op == 7; if (!self) s += "w = utf8(\"x\xC3\xA9z\");\n"; s += "print \"" + tag + "\" u.insert(" + lit(p) + ", " + (self ? "u" : "w") + ");\n";
+        if (valid && p >= 0 && (size_t)p <= m.size()) { std::vector<long> src = self ? m : std::vector<long>{'x', 0xC3A9, 'z'}; m.insert(m.begin() + p, src.begin(), src.end()); want.push_back(tag + std::to_string(src.size()));   /* returns the number of inserted code points */ ++res.probes[self ? "utf8_insert_into_itself" : "utf8_insert_object"]; } else { want.push_back("?"); valid = false; } break; }
       default: s += "put \"" + tag + "\";\nq = dumps(u.string());\nprint;\n"; want.push_back(tag + codes(encode_utf8(m))); break;
       }
     }
